@@ -18,6 +18,10 @@ R39.c  parsec_argv_join / parsec_argv_join_range (siblings): the buffer holds su
        terminator takes the last one (str[--len] = 0) and the fill loop writes exactly str[0 .. len-1], one byte
        per iteration - the joined string, its delimiters and its terminator fit the allocation exactly
        (a bounded-write clause, necessary for "join gives the original string back").
+R39.d  parsec_argv_split_inter: every variable-index write into the fixed scratch buffer (and the strncpy that fills
+       it) is dominated by `length <= capacity - 1`, capacity read from the declared array type; the heap copy of a
+       long piece is malloc(length + 1) with the terminator at [length]; both copies take exactly `length` bytes from
+       the start of the piece; split / split_with_empty differ only in the include_empty flag (0 / 1).
 Not decided: split / join round trips as values and command-line parsing.
 """
 from sa import aff
@@ -72,6 +76,8 @@ def run(ctx):
 
     rc = ctx.rule('R39.c', 'parsec_argv_join[_range]: allocation = sum(strlen + 1), terminator in its last byte, fill bounded by it', floor=8)
     check_join(ctx, u, rc)
+    rd = ctx.rule('R39.d', 'parsec_argv_split_inter: scratch-buffer writes bounded by its declared size, heap copy sized length + 1, exact copies; wrappers', floor=8)
+    check_split(ctx, u, rd)
 
     # ------------------------------------------------------------------ delete
     f = u.func('parsec_argv_delete'); ctx.functions_analysed.add(f.name)
@@ -263,3 +269,80 @@ def check_join(ctx, u, rc):
                 and fill[0].block != fill[1].block
         rc.expect(okl, '%s:fill' % fn, fill[0].loc if fill else f.where(), 'the fill loop must write exactly str[i] for i = 0 .. len-1, one byte per iteration (a delimiter or the next character)',
                   note='fill writes str[0 .. len-1], one byte per iteration')
+
+
+def _le_bound(a, t, var):
+    """guard (a, truth) -> largest value of var it admits, or None"""
+    if a.k != 'bin' or a.op not in ('<', '<=', '>', '>='):
+        return None
+    l, r = a.ch
+    op = a.op
+    if r.s == var and l.s != var:
+        l, r = r, l
+        op = {'<': '>', '>': '<', '<=': '>=', '>=': '<='}[op]
+    if l.s != var:
+        return None
+    c = aff.norm(r)
+    if not c.is_const():
+        return None
+    c = c.const_value()
+    if not t:
+        op = {'<': '>=', '>': '<=', '<=': '>', '>=': '<'}[op]
+    if op == '<':
+        return c - 1
+    if op == '<=':
+        return c
+    return None
+
+
+def check_split(ctx, u, rd):
+    import re
+    f = u.func('parsec_argv_split_inter'); ctx.functions_analysed.add(f.name)
+    fixed = {}
+    for s_ in f.stores():
+        if s_.lhs.k == 'idx' and s_.lhs.ch[0].ty:
+            m = re.match(r'char\[(\d+)\]$', s_.lhs.ch[0].ty)
+            if m:
+                fixed[s_.lhs.ch[0].s] = int(m.group(1))
+    if len(fixed) != 1:
+        raise AnalysisBroken('parsec_argv_split_inter: expected one fixed-size scratch buffer, found %s' % sorted(fixed))
+    buf, cap = list(fixed.items())[0]
+    nvar = 0
+    for s_ in f.stores():
+        if s_.lhs.k != 'idx' or s_.lhs.ch[0].s != buf:
+            continue
+        ix = s_.lhs.ch[1]
+        n = aff.norm(ix)
+        if n.is_const():
+            rd.expect(0 <= n.const_value() < cap, 'split:fixed-write:%s' % ix.s, s_.loc, 'write at %s[%s] outside the %d bytes of the buffer' % (buf, ix.s, cap), note='constant index inside the buffer')
+            continue
+        nvar += 1
+        bounds = [b for b in (_le_bound(a, t, ix.s) for a, t, _ in f.guards(s_.point)) if b is not None]
+        rd.expect(ix.k == 'ref' and bool(bounds) and min(bounds) <= cap - 1, 'split:fixed-write:%s' % ix.s, s_.loc,
+                  '%s[%s] is written without a dominating test that %s <= %d (the buffer has %d bytes): a longer piece overruns the stack buffer' % (buf, ix.s, ix.s, cap - 1, cap),
+                  note='%s[%s] written only under %s <= %d' % (buf, ix.s, ix.s, cap - 1))
+    if nvar < 1:
+        raise AnalysisBroken('parsec_argv_split_inter: no variable-index write into the scratch buffer')
+    cps = f.calls('strncpy')
+    if len(cps) != 2:
+        raise AnalysisBroken('parsec_argv_split_inter: expected the two strncpy copies (scratch and heap), found %d' % len(cps))
+    src = f.params[0]['n']
+    for c in cps:
+        dst, frm, ln = c.args
+        if dst.s == buf:
+            bounds = [b for b in (_le_bound(a, t, ln.s) for a, t, _ in f.guards(c.point)) if b is not None]
+            rd.expect(bool(bounds) and min(bounds) <= cap - 1, 'split:copy-fixed', c.loc, 'strncpy into the %d-byte buffer with a length not known to be <= %d' % (cap, cap - 1), note='copy into the scratch buffer only under length <= %d' % (cap - 1))
+        else:
+            al = [s_ for s_ in f.stores(dst.s) if s_.rhs is not None and any(x.k == 'call' and x.n == 'malloc' for x in s_.rhs.walk())]
+            okm = len(al) == 1 and f.precedes(al[0], c)
+            if okm:
+                mc = [x for x in al[0].rhs.walk() if x.k == 'call' and x.n == 'malloc'][0]
+                okm = aff.norm(mc.ch[0]) == aff.norm(ln) + P.const(1)
+            rd.expect(okm, 'split:copy-heap', c.loc, 'the heap copy of a long piece needs malloc(length + 1): the copy and its terminator', note='heap copy: malloc(length + 1)')
+        term = [s_ for s_ in f.stores() if s_.lhs.k == 'idx' and s_.lhs.ch[0].s == dst.s and s_.rhs is not None and s_.rhs.cv == 0 and s_.lhs.ch[1].s == ln.s and s_.block == c.block and s_.idx > c.idx]
+        rd.expect(frm.s == src and len(term) == 1, 'split:copy-exact:%s' % dst.s, c.loc, 'the piece must be copied from its start with exactly its length and terminated at [length]', note='%s: length bytes from the start of the piece, terminator at [length]' % dst.s)
+    for fn, flag in (('parsec_argv_split', 0), ('parsec_argv_split_with_empty', 1)):
+        g = u.func(fn); ctx.functions_analysed.add(g.name)
+        cs = g.calls('parsec_argv_split_inter')
+        ok = len(cs) == 1 and [a.s for a in cs[0].args[:2]] == [p_['n'] for p_ in g.params[:2]] and cs[0].args[2].cv == flag and len(g.returns()) == 1 and g.returns()[0].e is not None and g.returns()[0].e.k == 'call'
+        rd.expect(ok, 'split:wrapper:%s' % fn, g.where(), '%s must return split_inter(string, delimiter, %d)' % (fn, flag), note='%s = split_inter(.., .., %d)' % (fn, flag))
